@@ -32,6 +32,16 @@ Progs ==
     P1(<<SFor("", "num", <<Num(6)>>, <<[k |-> "raw", ps |-> <<"// delay">>]>>), Pr(<<Num(9)>>)>>),
     P1(<<SFor("i", "num", <<Num(4)>>, <<[k |-> "raw", ps |-> <<"">>], [k |-> "raw", ps |-> <<"// wait">>], Pr(<<EVar("i", T_num)>>)>>), Pr(<<Num(9)>>)>>),
     P1(<<SInfer("x", Num(0)), SWhile(EBin("<", X, Num(3)), <<[k |-> "raw", ps |-> <<"// tick">>], SAsg(X, EBin("+", X, Num(1)))>>), Pr(<<X>>)>>),
+    \* an open-ended slice as the last argument of an effect; a slice returned into an effect
+    P1(<<SInfer("w", EStr(<<97, 98, 99, 100>>)), SFor("i", "num", <<Num(3)>>, <<Pr(<<EVar("i", T_num), ESlice(EVar("w", T_str), <<EVar("i", T_num)>>, <<>>)>>)>>),
+         Pr(<<ESlice(EVar("w", T_str), <<EBin("+", Num(1), Num(1))>>, <<>>), ESlice(EVar("w", T_str), <<>>, <<Num(2)>>), ESlice(EVar("w", T_str), <<Num(1)>>, <<Num(3)>>)>>)>>),
+    [Program(<<SInfer("a", EArr(<<Num(1), Num(2), Num(3)>>)), Pr(<<ECallU("rest", Sig(<<T_num>>, <<>>, TArr(T_num)), <<Num(1)>>)>>), Pr(<<ESlice(EVar("a", TArr(T_num)), <<Num(2)>>, <<>>)>>)>>,
+             <<FuncDef("rest", <<Param("n", T_num)>>, <<>>, TArr(T_num), <<SRetV(ESlice(EVar("a", TArr(T_num)), <<EVar("n", T_num)>>, <<>>), TArr(T_num))>>)>>, <<>>) EXCEPT !.fl = TRUE],
+    \* tests whose arguments take steps (a call that prints): the summary after a stop counts the tests that ran
+    [Program(<<SCall(ECallB("test", <<Num(4), ECallU("dbl", Sig(<<T_num>>, <<>>, T_num), <<Num(2)>>)>>)), Pr(<<Num(1)>>),
+               SCall(ECallB("test", <<Num(5), ECallU("dbl", Sig(<<T_num>>, <<>>, T_num), <<Num(3)>>)>>)),
+               SCall(ECallB("test", <<EBin("==", ECallU("dbl", Sig(<<T_num>>, <<>>, T_num), <<Num(1)>>), Num(2))>>)), Pr(<<Num(2)>>)>>,
+             <<FuncDef("dbl", <<Param("n", T_num)>>, <<>>, T_num, <<Pr(<<Num(7), EVar("n", T_num)>>), SRetV(EBin("*", EVar("n", T_num), Num(2)), T_num)>>)>>, <<>>) EXCEPT !.fl = TRUE],
     \* not terminating: with effects, without effects, by recursion
     P1(<<SWhile(EBool(TRUE), <<Pr(<<Num(1)>>)>>)>>),
     P1(<<SInfer("x", Num(0)), SWhile(EBool(TRUE), <<SAsg(X, EBin("+", X, Num(1)))>>)>>),
